@@ -294,6 +294,31 @@ def case_root(ctx, rng, name, layout, repeat=None):
     if rng.random() < 0.2:
         guess = np.float64(guess)
     func = lib_residual(name, c) if 'root' not in SHARED else SHARED['root'][1]
+    if 'root' not in SHARED and rng.random() < 0.3:
+        # spectators: entries of d the residual does not use (a whole parameter vector handed over, a function of some entries):
+        # their sensitivity is exactly zero and the root is unchanged.  They live on the chains of d[0] (so no name depends on them).
+        npad = int(rng.choice([1, 1, 2]))
+        core, full, keep = list(d), list(d), list(range(len(d)))
+        for _ in range(npad):
+            pos = int(rng.choice([0, 0, len(full), int(rng.integers(0, len(full) + 1))]))
+            full.insert(pos, float(rng.uniform(0.2, 0.9)) * core[0] + float(rng.uniform(-2, 2)))
+            keep = [k_ + 1 if k_ >= pos else k_ for k_ in keep]
+        base, nd_core = func, nd
+        func = (lambda x, dd: base(x, [dd[i] for i in keep])) if nd_core > 1 else (lambda x, dd: base(x, dd[keep[0]]))
+        inv_core, sens_core, res_core = inv, sens, res
+        inv = lambda v, c_: inv_core([v[i] for i in keep], c_)
+        res = lambda x, v, c_: res_core(x, [v[i] for i in keep], c_)
+        s_full = [0.0] * len(full)
+        for k_, i in enumerate(keep):
+            s_full[i] = s_exact[k_]
+        s_exact = s_full
+        d_core, d = d, full
+        dv = [o.value for o in d]
+        nd = len(full)
+        ctx.cell('find_root_spectators', name, 'first-entry-unused' if 0 not in keep else 'later-entry-unused', npad)
+        ctx.count('spectator_cases')
+    else:
+        d_core = d
     if nd == 1:
         form = str(rng.choice(['Obs', 'list', 'array']))
         arg = d[0] if form == 'Obs' else ([d[0]] if form == 'list' else np.array([d[0]]))
@@ -327,7 +352,7 @@ def case_root(ctx, rng, name, layout, repeat=None):
         ctx.absorb(t)
     # equal to the explicit inverse built with the overloads
     try:
-        direct = explicit_inverse(name, c, d)
+        direct = explicit_inverse(name, c, d_core)
     except Exception:
         direct = None
     if direct is not None and is_obs(direct) and not split_safe(snaps):
